@@ -762,14 +762,37 @@ func attributeModel(r *rng, m *Model) {
 		}
 		return mod, file
 	}
+	// sometimes only one class of item is attributed at all (a model whose
+	// types carry no module but whose conditions or relations do)
+	pt, pr, pc := 80, 40, 70
+	if r.chance(15) {
+		switch r.intn(4) {
+		case 0:
+			pt, pr = 0, 0
+			pc = 100
+		case 1:
+			pt, pc = 0, 0
+			pr = 70
+		case 2:
+			pr, pc = 0, 0
+		case 3:
+			pt, pr, pc = 0, 0, 0
+			if len(m.Types) > 0 {
+				t := m.Types[r.intn(len(m.Types))]
+				t.Module, t.File = attr(100)
+			}
+		}
+	}
 	for _, t := range m.Types {
-		t.Module, t.File = attr(80)
+		if pt > 0 {
+			t.Module, t.File = attr(pt)
+		}
 		for _, rel := range t.Relations {
-			rel.Module, rel.File = attr(40)
+			rel.Module, rel.File = attr(pr)
 		}
 	}
 	for _, c := range m.Conds {
-		c.Module, c.File = attr(70)
+		c.Module, c.File = attr(pc)
 	}
 }
 
